@@ -1,4 +1,5 @@
-import CkcVerif.Model.Card
+import CkcVerif.Model.Basic
+import CkcVerif.Model.Fields
 import CkcVerif.Model.Bits
 /-!
 # `src/cards/five.rs` — the five-card evaluator (model of the repaired code)
@@ -50,27 +51,31 @@ def findGo (T : Tables) (key : Nat) : Nat → Nat → Nat → Option Nat
     else some 0
 def findInProducts (T : Tables) (key : Nat) : Option Nat := findGo T key 14 0 4887
 
-/-- repaired `not_unique` -/
-def notUnique (T : Tables) (h : List Nat) : Option Nat :=
-  let key := multiplyPrimes h
+/-- repaired `not_unique`, as a function of the prime product -/
+def notUniqueKey (T : Tables) (key : Nat) : Option Nat :=
   match findInProducts T key with
   | none => none
   | some idx =>
     match T.products idx with
     | none => none
     | some p => if p != key then some Gen.noHandRankValue else T.values idx
+def notUnique (T : Tables) (h : List Nat) : Option Nat := notUniqueKey T (multiplyPrimes h)
 
 def unique (T : Tables) (index : Nat) : Option Nat :=
   if index > Gen.possibleCombinations then some Gen.blank else T.unique5 index
 
-/-- `Five::hand_rank_value_and_hand`, value part -/
-def handRankValue5 (T : Tables) (h : List Nat) : Option Nat :=
-  let i := orRankBits h
-  if isFlush h then T.flushes i
+/-- the body of `Five::hand_rank_value_and_hand` in terms of the three quantities it computes from the
+    cards: the OR-ed rank bits `i`, the prime product `key`, and the flush flag -/
+def evalCore (T : Tables) (i key : Nat) (flush : Bool) : Option Nat :=
+  if flush then T.flushes i
   else match unique T i with
     | none => none
-    | some 0 => notUnique T h
+    | some 0 => notUniqueKey T key
     | some u => some u
+
+/-- `Five::hand_rank_value_and_hand`, value part -/
+def handRankValue5 (T : Tables) (h : List Nat) : Option Nat :=
+  evalCore T (orRankBits h) (multiplyPrimes h) (isFlush h)
 
 def handRankValueAndHand5 (T : Tables) (h : List Nat) : Option (Nat × List Nat) :=
   match handRankValue5 T h with
